@@ -23,6 +23,14 @@ CHECKS = {
             'the same chain of Python operators; value (type+repr, identity for existing objects), failing position and carried exception class are compared.',
             'Operands and intermediate values are small; a failing call step only has to surface the callee exception class; T inside slice objects not covered.',
             '3/C02'),
+    'C18': ('model_checking',
+            'bounded exhaustive enumeration of T/S/A expressions and Paths (round trip through eval(repr) and pickle) and of all index/slice triples against tuple semantics',
+            'Every expression of <= 3 steps (thorough: 4) over 25 step instances rooted at T, S and A, every Path of <= 4 (5) mixed P/T steps: eval(repr(x)) and '
+            'pickle must give the same repr, the same step structure and the same evaluation on a recording target and ordinary targets. Every Path of length 0..4 (5) '
+            'over 5 step kinds x every index in [-7,7] x every in-range slice triple x every prefix split is compared with the tuple of steps; the composition law is '
+            'checked for every split point of every C01 path.',
+            'Literal alphabet as listed in the check; arithmetic steps, dunder names, non-finite floats outside; wildcard steps on S/A roots are not evaluated (structure only).',
+            '3/C18'),
 }
 
 NOT_YET = {}
